@@ -5,11 +5,15 @@ Model of the configuration handling in infretis/setup.py (C18):
   setup_config = defaults ; check                          → `setupConfig`
 and of REPEX_state.initiate_ensembles (repex.py:1034-1081) → `initEnsembles`.
 
-The model mirrors the code branch by branch, in the code's order, including Python
-truthiness (`if intf_cap and …` skips a cap of 0.0; `if quantis and lambda_minus_one` skips
-λ₋₁ = 0.0; `if not has_ens_engs` treats an empty list like an absent key) and the places
-where the code raises something else than TOMLConfigError (IndexError on `intf[0]` for an
-empty interface list, KeyError on a missing `input_path` inside the gromacs check).
+The model mirrors the code (as repaired by /repo commit 729bb50) branch by branch, in the
+code's order, including Python truthiness (`if quantis and lambda_minus_one` skips λ₋₁ = 0.0;
+`if not has_ens_engs` treats an empty list like an absent key; the cap tests use
+`intf_cap is not False`, so a cap of 0.0 IS tested) and the one place where the code still
+raises something else than TOMLConfigError on a well-formed file (KeyError on a missing
+`input_path` inside the gromacs check).  Before the repair: the `n_ens < 2` test came third
+(IndexError from `intf[0]` on an empty list), the cap tests were `if intf_cap and …`, there
+was no wire-fencing-room loop and no test of the length / emptiness of ensemble_engines, and
+the quantis default raised IndexError on an empty interface list.
 
 Interfaces, cap and λ₋₁ are only compared, so they are `Int` (the harness feeds
 integer-valued floats, exact in Python).  Shooting moves are carried as wf-flags
@@ -104,16 +108,27 @@ def lm1Truthy : Lm1 → Bool
   | .val x => decide (x ≠ 0)
   | _ => false
 
-/-- the two cap tests; `if intf_cap and …`: an absent cap (`False`) and a cap of 0.0 are skipped -/
+/-- the two cap tests, `if intf_cap is not False and …`: only an absent cap is skipped -/
 def capTest (cap : Option Int) (intf : List Int) : Except Err Unit :=
   match cap with
   | none => .ok ()
   | some x =>
-    if x = 0 then .ok ()
-    else
-      match intf.getLast?, intf.head? with
-      | some last, some first => seq (rejectIf (decide (x > last))) (rejectIf (decide (x < first)))
-      | _, _ => .error .index
+    match intf.getLast?, intf.head? with
+    | some last, some first => seq (rejectIf (decide (x > last))) (rejectIf (decide (x < first)))
+    | _, _ => .error .index
+
+/-- `for idx, move in enumerate(slice): if move == "wf" and intf_cap <= intf[idx]: raise`;
+    `intf[idx]` on a too short list would be an IndexError (unreachable: the slice is shorter) -/
+def roomLoop (x : Int) : List Int → List Bool → Except Err Unit
+  | _, [] => .ok ()
+  | [], _ :: _ => .error .index
+  | l :: ls, m :: ms => if m && decide (x ≤ l) then .error .config else roomLoop x ls ms
+
+/-- the wire-fencing-room test over `sh_moves[1:n_ens]` -/
+def roomTest (cap : Option Int) (intf : List Int) (moves : List Bool) : Except Err Unit :=
+  match cap with
+  | none => .ok ()
+  | some x => roomLoop x intf ((moves.drop 1).take (intf.length - 1))
 
 /-- inner loop of the gromacs check for one gromacs engine `e1` with input path `p1` -/
 def gmxInner (e1 : Engine) (p1 : Nat) : List Engine → Except Err Unit
@@ -138,28 +153,41 @@ def gmxOuter (all : List Engine) : List Engine → Except Err Unit
 def lookupAll (tbl : List (String × Engine)) (names : List String) : List Engine :=
   names.filterMap (fun k => tbl.lookup k)
 
-/-- engine checks: `config["simulation"]["ensemble_engines"]` must exist (KeyError otherwise —
-    `setup_config` always fills it in), every unique name must be a table, then the gromacs check -/
-def engineTest (c : Cfg) : Except Err Unit :=
+/-- first part of the engine checks: `config["simulation"]["ensemble_engines"]` must exist
+    (KeyError otherwise — `setup_config` always fills it in), must have an entry per ensemble,
+    no entry may be empty, and every unique name must be a table -/
+def engineListTest (c : Cfg) : Except Err Unit :=
+  match c.ensEngines with
+  | none => .error .key
+  | some ee =>
+    seq (rejectIf (decide (ee.length < c.interfaces.length))) <|
+    seq (rejectIf (ee.any (fun names => names.isEmpty))) <|
+    rejectIf ((uniqueEngines ee).any (fun k => (c.engines.lookup k).isNone))
+
+/-- the gromacs loop over the unique engines (all defined at this point) -/
+def gromacsTest (c : Cfg) : Except Err Unit :=
   match c.ensEngines with
   | none => .error .key
   | some ee =>
     let uniq := uniqueEngines ee
-    seq (rejectIf (uniq.any (fun k => (c.engines.lookup k).isNone)))
-        (gmxOuter (lookupAll c.engines uniq) (lookupAll c.engines uniq))
+    gmxOuter (lookupAll c.engines uniq) (lookupAll c.engines uniq)
 
-/-- `check_config`, tests in the code's order -/
-def check (c : Cfg) : Except Err Unit :=
+/-- everything `check_config` does before the gromacs loop, tests in the code's order -/
+def preCheck (c : Cfg) : Except Err Unit :=
   let n : Int := c.interfaces.length
+  seq (rejectIf (decide (n < 2))) <|
   seq (lm1Test c.lm1 c.interfaces) <|
   seq (rejectIf (c.quantis = some true && lm1Truthy c.lm1)) <|
-  seq (rejectIf (decide (n < 2))) <|
   seq (rejectIf (decide (c.workers > n - 1))) <|
   seq (rejectIf (decide (isort c.interfaces ≠ c.interfaces))) <|
   seq (rejectIf (decide ((distinct c.interfaces).length ≠ c.interfaces.length))) <|
   seq (rejectIf (decide (c.interfaces.length > c.moves.length))) <|
   seq (capTest c.cap c.interfaces) <|
-  engineTest c
+  seq (roomTest c.cap c.interfaces c.moves) <|
+  engineListTest c
+
+/-- `check_config` -/
+def check (c : Cfg) : Except Err Unit := seq (preCheck c) (gromacsTest c)
 
 /-! ### the defaults block of setup_config -/
 
@@ -172,34 +200,29 @@ def hasEnsEngs (c : Cfg) : Bool :=
 def quantisOn (c : Cfg) : Bool := c.quantis = some true
 
 /-- lines 161-182: ensemble_engines, seed, quantis, lambda_minus_one, accept_all.
-    `ensemble_engines[0] = ["engine0"]` raises IndexError on an empty interface list. -/
-def normalise (c : Cfg) : Except Err Cfg :=
+    `ensemble_engines[0] = ["engine0"]` only for a non-empty interface list (so the default list
+    is non-empty and nothing raises). -/
+def normalise (c : Cfg) : Cfg :=
   let has := hasEnsEngs c
   let ee : List (List String) :=
     if has then (match c.ensEngines with | some ee => ee | none => [])
     else c.interfaces.map (fun _ => ["engine"])
-  let c1 : Cfg := { c with
-    ensEngines := some ee
+  let ee' : List (List String) :=
+    if quantisOn c && !has && !c.interfaces.isEmpty then
+      (match ee with | _ :: t => ["engine0"] :: t | [] => [])
+    else ee
+  { c with
+    ensEngines := some ee'
     seed := some (match c.seed with | some s => s | none => 0)
     quantis := some (quantisOn c)
-    lm1 := (match c.lm1 with | .absent => .off | l => l) }
-  if quantisOn c && !has then
-    match ee with
-    | [] => .error .index
-    | _ :: t => .ok { c1 with
-        ensEngines := some (["engine0"] :: t)
-        acceptAll := some (match c.acceptAll with | some a => a | none => false) }
-  else
-    .ok { c1 with acceptAll := some (match c.acceptAll with | some a => a | none => false) }
+    lm1 := (match c.lm1 with | .absent => .off | l => l)
+    acceptAll := some (match c.acceptAll with | some a => a | none => false) }
 
 /-- `setup_config` after the file has been read: defaults, then `check_config` -/
 def setupConfig (c : Cfg) : Except Err Cfg :=
-  match normalise c with
+  match check (normalise c) with
   | .error e => .error e
-  | .ok c' =>
-    match check c' with
-    | .error e => .error e
-    | .ok () => .ok c'
+  | .ok () => .ok (normalise c)
 
 /-! ### the property's predicate, executable form (proved equivalent to `Valid` in Props/C18) -/
 
